@@ -17,6 +17,7 @@ Requests (model = `Model.CEval` on `Model.CSyntax.render e`, spec = `Spec.CInt`)
   linit <ty> e                                        the pre-fix pipeline (`Model.CEvalLegacy`)
   mtype e | stype e                                   type given by ppci's semantics / by C
   pack <ty> <int> | lpack <ty> <int>                  `CContext.pack` (fixed / pre-fix) on a raw value
+  elist <I | X e>… | selist …                        enumerator list: values of all enumerators (model / spec)
   epack <int> | ppack <int>                           `CContext.pack` on an enum type / a pointer type
   einit e | pinit e | seinit e | spinit e             `enum E x = e;` / `T *p = (T *)e;` (model / spec)
   wrap <ty> <int> | conv <ty> <int>                   `to_integer_type` / `Spec.CInt.convert`
@@ -92,6 +93,17 @@ def parseAll (ws : List String) : Option Expr :=
   | some (e, []) => some e
   | _ => none
 
+/-- enumerator list: `I` (no `= expr`) or `X <expr>` per enumerator -/
+def parseItems : Nat → List String → Option (List (Option Expr))
+  | 0, _ => none
+  | _ + 1, [] => some []
+  | fuel + 1, "I" :: rest => (parseItems fuel rest).map (none :: ·)
+  | fuel + 1, "X" :: rest =>
+    match parseE (rest.length + 1) rest with
+    | some (e, r) => (parseItems fuel r).map (some e :: ·)
+    | none => none
+  | _ + 1, _ => none
+
 def showBytes : Except Model.CEval.Err (List Nat) → String
   | .ok bs => "ok " ++ toHex bs
   | .error e => "err " ++ e.name
@@ -120,6 +132,16 @@ def step (line : String) : String :=
   | "sinit" :: t :: ws => match specTy? t, parseAll ws with
       | some τ, some e => showOptBytes (Spec.CInt.initBytes τ e)
       | _, _ => "bad-op"
+  | "elist" :: ws => match parseItems (ws.length + 1) ws with
+      | some l => match Model.CEval.enumValues (l.map (Option.map render)) with
+          | .ok vs => "ok " ++ showIntList vs
+          | .error e => "err " ++ e.name
+      | none => "bad-op"
+  | "selist" :: ws => match parseItems (ws.length + 1) ws with
+      | some l => match Spec.CInt.enumValues l with
+          | some vs => "ok " ++ showIntList vs
+          | none => "ok none"
+      | none => "bad-op"
   | "einit" :: ws => match parseAll ws with
       | some e => showBytes (Model.CEval.initializerEnum (render e))
       | _ => "bad-op"
